@@ -249,3 +249,24 @@ package keeper
 //@ requires [round_counter_below_2_64] oracle.QuerySequencer < 18446744073709551615
 //@ modifies oracle.QuerySequencer
 //@ ensures [fresh_round_with_2000_block_window] err == nil ==> query.Id == old(oracle.QuerySequencer) && oracle.QuerySequencer == old(oracle.QuerySequencer) + 1 && query.Expiration == blockheight(ctx) + 2000 && query.RegistrySpecBlockWindow == 2000 && query.Amount == 0 && query.CycleList && !query.HasRevealedReports
+
+//@ func (k Keeper).CurrentQuery(ctx, queryId) (query, err)
+//@ ensures [found_is_the_latest_round_of_the_query] err == nil ==> has(oracle.Query, pair(bytes(queryId), iterkey(0, 0))) && query == oracle.Query[pair(bytes(queryId), iterkey(0, 0))] && forall i int :: has(oracle.Query, pair(bytes(queryId), i)) && 0 <= i && i < 18446744073709551616 ==> i <= iterkey(0, 0)
+//@ ensures [found_is_a_stored_round_with_the_highest_id] err == nil ==> exists m int :: has(oracle.Query, pair(bytes(queryId), m)) && query == oracle.Query[pair(bytes(queryId), m)] && forall i int :: has(oracle.Query, pair(bytes(queryId), i)) && 0 <= i && i < 18446744073709551616 ==> i <= m
+//@ ensures [reads_only] nothing_written()
+//@ iter 0 invariant [nothing_visited_yet] $k == 0 && query.QueryData == nil
+
+// PreventBridgeWithdrawalReport decodes the query data with go-ethereum's abi package (not modelled): trusted.
+//@ func (k Keeper).PreventBridgeWithdrawalReport(queryData) (isDeposit, err)
+//@ trusted
+
+//@ func (k msgServer).SubmitValue(ctx, msg) (resp, err)
+//@ requires [msg_present] msg != nil
+//@ requires [round_counter_below_2_64] oracle.QuerySequencer < 18446744073709551614
+//@ requires [windows_fit] forall q bytes :: forall i int :: blockheight(ctx) + oracle.Query[pair(q, i)].RegistrySpecBlockWindow < 18446744073709551616
+//@ modifies oracle.Query, oracle.Reports, oracle.QuerySequencer, reporter.Report
+//@ ensures [reporter_holds_the_minimum_stake] err == nil ==> ret(ReporterStake, 0) >= oracle.Params.MinStakeAmount
+//@ ensures [withdrawal_queries_are_rejected] err == nil ==> called(PreventBridgeWithdrawalReport) && ret(PreventBridgeWithdrawalReport, 1) == nil
+//@ ensures [power_is_the_stake_in_whole_tokens] err == nil && called(DirectReveal) ==> arg(DirectReveal, votingPower) == ret(ReporterStake, 0) / 1000000 && arg(DirectReveal, bridgeDeposit) == ret(PreventBridgeWithdrawalReport, 0)
+//@ ensures [power_is_the_stake_in_whole_tokens_for_new_deposit_rounds] err == nil && !called(DirectReveal) ==> called(HandleBridgeDepositDirectReveal) && arg(HandleBridgeDepositDirectReveal, voterPower) == ret(ReporterStake, 0) / 1000000 && ret(PreventBridgeWithdrawalReport, 0)
+//@ ensures [report_goes_to_the_latest_round] err == nil && called(DirectReveal) ==> arg(DirectReveal, query) == ret(CurrentQuery, 0) && ret(CurrentQuery, 1) == nil
